@@ -1,2 +1,176 @@
--- line-protocol driver for C16 (stub; replaced when the property is built)
-def main : IO Unit := IO.println "stub"
+import Verif.Model.Admin
+/-!
+  Line-protocol driver for C16 (administrative state).
+
+  One *sequence* per line; the first field selects the stage, every further field is one
+  operation (`case=…` is ignored).  Strings are bare hex, `!` = none, sub-fields split on `:`.
+
+    coll  ps:<id>:<name>:<tok>:<kid|!>:<sum>   provisioner Store
+          pu:<id>:<name>:<tok>:<kid|!>:<sum>   provisioner Update
+          pr:<id>                              provisioner Remove
+          pf:<cursor>:<limit>  pp:<limit>      provisioner Find / all pages from ""
+          pk:<kid>                             LoadEncryptedKey
+          as:<id>:<sub>:<provId>:<0|1>:<pid>:<pname>   admin Store(adm, prov)
+          ar:<id>  au:<id>:<0|1>               admin Remove / Update
+          af:<cursor>:<limit>  ap:<limit>      admin Find / all pages from ""
+    auth  sa:<id>:<sub>:<provId>:<0|1>:<pid>:<pname>:<faults>   StoreAdmin
+          ua:<id>:<0|1>:<faults>  ra:<id>:<faults>             UpdateAdmin / RemoveAdmin
+          sp:<id>:<name>:<tok>:<kid|!>:<sum>:<faults>           StoreProvisioner
+          up:<id>:<name>:<tok>:<kid|!>:<sum>:<faults>           UpdateProvisioner
+          rp:<id>:<faults>  rs                                  RemoveProvisioner / restart
+          init:<provs>|<adms> is not needed: the sequence starts from `i:` operations
+          ip:<id>:<name>:<tok>:<kid|!>:<sum>  ia:<id>:<sub>:<provId>:<0|1>   records present in the
+                                              database before the CA is first started (`boot`)
+          boot                                start the CA on that database
+      <faults> = `-` or positions joined by `+` (1-based database calls inside the request)
+
+  Output: one item per operation joined by `;`.  A mutating operation yields
+  `<outcome>#<dump of every index>`; Find yields `f:<ids>/<next>`; pages `p:<page>|<page>…`.
+-/
+open Verif Verif.Admin
+
+namespace C16
+
+def str? (t : String) : Option Str := unhex t
+def optStr? (t : String) : Option (Option Str) := if t = "!" then some none else (unhex t).map some
+def bool? (t : String) : Option Bool := if t = "1" then some true else if t = "0" then some false else none
+def int? (t : String) : Option Int := t.toInt?
+
+def h (a : Str) : String := hex a
+def b (x : Bool) : String := if x then "1" else "0"
+
+def sortS (l : List String) : List String := l.mergeSort (fun a b => !(b < a))
+def join (l : List String) : String := ",".intercalate l
+def strKeyLe (a b : Str) : Bool := !(slt b a)
+
+def prov? : List String → Option Prov
+  | [id, name, tok, kid, sum] => do
+    pure { id := (← str? id), name := (← str? name), tok := (← str? tok), kid := (← optStr? kid), sum := (← str? sum) }
+  | _ => none
+
+def adm? : List String → Option Adm
+  | [id, sub, pid, t] => do pure { id := (← str? id), sub := (← str? sub), provId := (← str? pid), super := (← bool? t) }
+  | _ => none
+
+def faults? (t : String) : Option Faults :=
+  if t = "-" then some [] else (t.splitOn "+").mapM (·.toNat?)
+
+def pErrS : PErr → String
+  | .dupId | .dupName | .dupTok | .nameExists | .tokExists => "bad"
+  | .notFound | .notFoundSorted => "nf"
+
+def aErrS : AErr → String
+  | .mismatch => "ise"
+  | .dupId | .dupSubProv => "err"
+  | .lastSuper => "bad"
+  | _ => "nf"
+
+def outS : Out → String
+  | .ok => "ok" | .perr e => pErrS e | .aerr e => aErrS e | .crash => "crash"
+
+def admS (a : Adm) : String := s!"{h a.id}.{h a.sub}.{h a.provId}.{b a.super}"
+def provS (p : Prov) : String := s!"{h p.id}.{h p.name}.{h p.tok}"
+
+/-- everything the public API of the two collections shows, maps sorted by key -/
+def dump (s : Cache) : String :=
+  let A := s.A
+  let P := s.P
+  let aList := join (A.sorted.map admS)
+  let aId := join (sortS (A.byID.map fun e => s!"{h e.1}={admS e.2}"))
+  let aSp := join (sortS (A.bySubProv.map fun e => s!"{h e.1.1}/{h e.1.2}={admS e.2}"))
+  let aGr := join (sortS ((A.byProv.filter (fun e => !e.2.isEmpty)).map fun e =>
+    s!"{h e.1}=" ++ "+".intercalate (e.2.map admS)))
+  let aCp := join (sortS ((A.superByProv.filter (fun e => e.2 ≠ 0)).map fun e => s!"{h e.1}={e.2}"))
+  let pList := join (P.sorted.map fun e => provS e.2)
+  let pId := join (sortS (P.byID.map fun e => s!"{h e.1}={provS e.2}"))
+  let pNm := join (sortS (P.byName.map fun e => s!"{h e.1}={provS e.2}"))
+  let pTk := join (sortS (P.byTok.map fun e => s!"{h e.1}={provS e.2}"))
+  let pKy := join (sortS ((P.byKey.filter (fun e => e.2.kid.isSome)).map fun e => s!"{h e.1}={h e.2.id}"))
+  s!"A[{aList}]I[{aId}]S[{aSp}]G[{aGr}]C={A.superCount}Cp[{aCp}]P[{pList}]Pi[{pId}]Pn[{pNm}]Pt[{pTk}]Pk[{pKy}]"
+
+def pagesS {α : Type} (f : α → String) (pg : List (List α)) (fuel : Nat) : String :=
+  if pg.length ≥ fuel then "p:loop" else "p:" ++ "|".intercalate (pg.map fun l => join (l.map f))
+
+def fuel : Nat := 300
+
+def collOp (s : Cache) (tok : String) : Option (Cache × String) :=
+  let fin (r : Cache × Out) := let (s', o) := r; some (s', outS o ++ "#" ++ dump s')
+  match tok.splitOn ":" with
+  | "ps" :: r => do fin (cstep current s (.pStore (← prov? r)))
+  | "pu" :: r => do fin (cstep current s (.pUpdate (← prov? r)))
+  | ["pr", id] => do fin (cstep current s (.pRemove (← str? id)))
+  | ["pf", c, l] => do
+    let r := s.P.find (← str? c) (← int? l)
+    pure (s, "f:" ++ join (r.1.map fun e => h e.2.id) ++ "/" ++ h r.2)
+  | ["pp", l] => do
+    pure (s, pagesS (fun e : Str × Prov => h e.2.id) (s.P.pages (← int? l) fuel) fuel)
+  | ["pk", k] => do
+    pure (s, "k:" ++ match s.P.loadKey (← str? k) with | some p => h p.id | none => "!")
+  | ["as", id, sub, pid, t, apid, apname] => do
+    fin (cstep current s (.aStore (← adm? [id, sub, pid, t]) (← str? apid) (← str? apname)))
+  | ["ar", id] => do fin (cstep current s (.aRemove (← str? id)))
+  | ["au", id, t] => do fin (cstep current s (.aUpdate (← str? id) (← bool? t)))
+  | ["af", c, l] => do
+    let r := s.A.find (← str? c) (← int? l)
+    pure (s, "f:" ++ join (r.1.map fun a => h a.id) ++ "/" ++ h r.2)
+  | ["ap", l] => do
+    pure (s, pagesS (fun a : Adm => h a.id) (s.A.pages (← int? l) fuel) fuel)
+  | _ => none
+
+def authOutS : AuthOut → String
+  | .ok => "ok" | .badRequest => "bad" | .notFound => "nf" | .storeFailed => "storefail"
+  | .reloadFailed => "reloadfail" | .cacheFailed => "cachefail" | .crash => "crash"
+
+/-- what the admin API lists (all pages) plus the authentication index and counters -/
+def authDump (s : Auth) : String :=
+  let A := s.cache.A
+  let P := s.cache.P
+  let aList := join (A.sorted.map admS)
+  let aSp := join (sortS (A.bySubProv.map fun e => s!"{h e.1.1}/{h e.1.2}={h e.2.id}"))
+  let pList := join (sortS (P.sorted.map fun e => provS e.2))
+  let dA := join ((s.db.adms.mergeSort fun x y => strKeyLe x.id y.id).map admS)
+  let dP := join (sortS (s.db.provs.map provS))
+  s!"A[{aList}]S[{aSp}]C={A.superCount}P[{pList}]dA[{dA}]dP[{dP}]"
+
+def authOp (s : Auth) (tok : String) : Option (Auth × String) :=
+  let fin (r : Auth × AuthOut) := let (s', o) := r; some (s', authOutS o ++ "#" ++ authDump s')
+  match tok.splitOn ":" with
+  | "ip" :: r => do
+    let p ← prov? r
+    pure ({ s with db := { s.db with provs := insDB (·.id) p s.db.provs } }, "-")
+  | "ia" :: r => do
+    let a ← adm? r
+    pure ({ s with db := { s.db with adms := insDB (·.id) a s.db.adms } }, "-")
+  | ["boot"] => fin (Auth.step current [] s .restart)
+  | ["rs"] => fin (Auth.step current [] s .restart)
+  | ["sa", id, sub, pid, t, apid, apname, f] => do
+    fin (Auth.step current (← faults? f) s (.storeAdmin (← adm? [id, sub, pid, t]) (← str? apid) (← str? apname)))
+  | ["ua", id, t, f] => do fin (Auth.step current (← faults? f) s (.updateAdmin (← str? id) (← bool? t)))
+  | ["ra", id, f] => do fin (Auth.step current (← faults? f) s (.removeAdmin (← str? id)))
+  | ["sp", id, name, tok, kid, sum, f] => do
+    fin (Auth.step current (← faults? f) s (.storeProv (← prov? [id, name, tok, kid, sum])))
+  | ["up", id, name, tok, kid, sum, f] => do
+    fin (Auth.step current (← faults? f) s (.updateProv (← prov? [id, name, tok, kid, sum])))
+  | ["rp", id, f] => do fin (Auth.step current (← faults? f) s (.removeProv (← str? id)))
+  | ["la", l] => do
+    pure (s, pagesS (fun a : Adm => h a.id) (s.cache.A.pages (← int? l) fuel) fuel)
+  | ["lp", l] => do
+    pure (s, pagesS (fun e : Str × Prov => h e.2.id) (s.cache.P.pages (← int? l) fuel) fuel)
+  | _ => none
+
+def runOps {σ : Type} (f : σ → String → Option (σ × String)) : σ → List String → List String → Option (List String)
+  | _, [], acc => some acc.reverse
+  | s, t :: r, acc => do
+    let (s', o) ← f s t
+    runOps f s' r (o :: acc)
+
+def eval (line : String) : Option String := do
+  let toks := (fields line).filter (fun t => !t.startsWith "case=")
+  match toks with
+  | "coll" :: ops => do pure (";".intercalate (← runOps collOp {} ops []))
+  | "auth" :: ops => do pure (";".intercalate (← runOps authOp {} ops []))
+  | _ => none
+
+end C16
+
+def main : IO Unit := Verif.lineLoop fun l => (C16.eval l).getD "parse-error"
